@@ -1091,3 +1091,186 @@ Print Assumptions pparse_sub_depth.
 Print Assumptions pparse_no_depthout.
 Print Assumptions media_leaf_total.
 Print Assumptions media_query_total.
+
+(* ================================================================== the VALUE part of env_real (gids 3..11)
+   The sub-parser call graph is cyclic (CSSFunction -> CSSFunction, MSValue -> MSValue, CSSVariable -> CSSFunction ...),
+   so DepthOut (Python: RecursionError) is a genuine outcome; everything else is excluded for EVERY depth budget. *)
+Local Transparent env_real.
+Lemma env3 : nth_error env_real 3 = Some (mkGr (s "PropertyValue") tree_PropertyValue (mkOpts false false false) PostPV).
+Proof. reflexivity. Qed.
+Lemma env7 : nth_error env_real 7 = Some (mkGr (s "URIValue") tree_URIValue (mkOpts false false false) PostFirst).
+Proof. reflexivity. Qed.
+Lemma env8 : nth_error env_real 8 = Some (mkGr (s "CSSFunction") tree_CSSFunction (mkOpts false false false) PostOk).
+Proof. reflexivity. Qed.
+Lemma env9 : nth_error env_real 9 = Some (mkGr (s "MSValue") tree_MSValue (mkOpts false false false) PostOk).
+Proof. reflexivity. Qed.
+Lemma env10 : nth_error env_real 10 = Some (mkGr (s "CSSCalc") tree_CSSCalc (mkOpts false true false) PostOk).
+Proof. reflexivity. Qed.
+Lemma env11 : nth_error env_real 11 = Some (mkGr (s "CSSVariable") tree_CSSVariable (mkOpts false false false) PostVar).
+Proof. reflexivity. Qed.
+Local Opaque env_real.
+
+(* classification of the productions of the value trees: cls, plus URIValue (7) entered on a typed token and the
+   grammars 8..11 whose constructors are total *)
+Definition cls2 (p : prod) : bool :=
+  match p_toseq p with
+  | ASub _ g => cls p || (Nat.eqb g 7 && typed_good p) || (Nat.leb 8 g && Nat.leb g 11)
+  | _ => cls p
+  end.
+Lemma cls2_trees :
+  tallb cls2 tree_PropertyValue = true /\ tallb cls2 tree_Value = true /\ tallb cls2 tree_ColorValue = true /\
+  tallb cls2 tree_DimensionValue = true /\ tallb cls2 tree_URIValue = true /\ tallb cls2 tree_CSSFunction = true /\
+  tallb cls2 tree_MSValue = true /\ tallb cls2 tree_CSSCalc = true /\ tallb cls2 tree_CSSVariable = true /\
+  tallb (tp_prod false) tree_URIValue = true.
+Proof. vm_compute. repeat split. Qed.
+Local Opaque tree_PropertyValue tree_URIValue tree_CSSFunction tree_MSValue tree_CSSCalc tree_CSSVariable.
+
+Definition Tr (_ : tok) : Prop := True.
+Definition DV (d : nat) : Prop := Dg 7 E45 d /\ Dg 8 Tr d /\ Dg 9 Tr d /\ Dg 10 Tr d /\ Dg 11 Tr d.
+
+Lemma cls2_safe d : DV d -> forall p, cls2 p = true -> prod_safe (subR d) (postof_env env_real) sane p.
+Proof.
+  intros [D7 [D8 [D9 [D10 D11]]]] p Hp. unfold cls2 in Hp.
+  destruct (p_toseq p) as [| | | | | |c|lab g|] eqn:Ha; try (apply (cls_safe d (Dall_all d)); exact Hp).
+  apply orb_true_iff in Hp. destruct Hp as [Hp|Hp]; [apply orb_true_iff in Hp; destruct Hp as [Hp|Hp]|].
+  - apply (cls_safe d (Dall_all d)); exact Hp.
+  - apply andb_true_iff in Hp. destruct Hp as [Hg He]. apply Nat.eqb_eq in Hg. subst g.
+    unfold prod_safe. rewrite Ha. intros t anc l Ht Hl Hn HnE Hm. apply D7; auto. exact (typed_good_ok p t He Hm).
+  - apply andb_true_iff in Hp. destruct Hp as [H1 H2]. apply Nat.leb_le in H1. apply Nat.leb_le in H2.
+    unfold prod_safe. rewrite Ha. intros t anc l Ht Hl Hn HnE Hm.
+    assert (Hg : g = 8 \/ g = 9 \/ g = 10 \/ g = 11) by lia.
+    destruct Hg as [->|[->|[->| ->]]]; [apply D8|apply D9|apply D10|apply D11]; auto; exact I.
+Qed.
+
+Lemma DV_0 : DV 0.
+Proof. repeat split; try discriminate. Qed.
+
+Lemma Dg_crash2 d g gr anc t l :
+  DV d -> nth_error env_real g = Some gr -> tallb cls2 (g_tree gr) = true ->
+  sane t -> Forall sane l -> subR (S d) g anc t l <> Crash.
+Proof.
+  intros HD Hg Hc Ht Hl. unfold subR. cbn [pparse_sub]. rewrite Hg. destruct (env_real_wf_np g gr Hg) as [Hw Hnp].
+  apply parse_tree_no_crash with (T := sane);
+    [apply pparse_sub_ok|exact Hw|exact Hnp| |left; reflexivity|cbn; constructor; assumption].
+  apply (tallb_tall cls2); [|exact Hc]. exact (cls2_safe d HD).
+Qed.
+
+Lemma Dg_total d g gr :
+  DV d -> nth_error env_real g = Some gr -> tallb cls2 (g_tree gr) = true -> post_total (g_post gr) = true ->
+  Dg g Tr (S d).
+Proof.
+  intros HD Hg Hc Hpt t anc l Ht Hl Hn _. split; [exact (Dg_crash2 d g gr anc t l HD Hg Hc Ht Hl)|].
+  intros r _. exists (g_post gr). split; [unfold postof_env; rewrite Hg; reflexivity|apply post_total_ok, Hpt].
+Qed.
+
+Lemma DV_S d : DV d -> DV (S d).
+Proof.
+  intros HD. destruct cls2_trees as [_ [_ [_ [_ [C7 [C8 [C9 [C10 [C11 T7]]]]]]]]].
+  split; [|split; [|split; [|split]]].
+  - intros t anc l Ht Hl Hn HE. split; [apply (Dg_crash2 d 7 _ anc t l HD env7 C7 Ht Hl)|]. destruct HE as [HS [HEo HC]].
+    unfold subR. cbn [pparse_sub]. rewrite env7. cbn [g_tree g_opts]. intros r Hr. exists PostFirst.
+    split; [unfold postof_env; rewrite env7; reflexivity|]. apply post_ok_first; [auto|]. intros Hwf.
+    destruct (parse_tree_first _ _ _ t false (fun p => tp_prod false p = true) (fun p H => H) Hn HS HEo _ anc l r
+                (tallb_tall (tp_prod false) _ (fun p H => H) _ T7) Hr Hwf) as [it [rest [Hi [Hty _]]]].
+    exists it, rest. split; [exact Hi|]. rewrite Hty. split; [exact HC|discriminate].
+  - exact (Dg_total d 8 _ HD env8 C8 eq_refl).
+  - exact (Dg_total d 9 _ HD env9 C9 eq_refl).
+  - exact (Dg_total d 10 _ HD env10 C10 eq_refl).
+  - exact (Dg_total d 11 _ HD env11 C11 eq_refl).
+Qed.
+
+Lemma DV_all d : DV d.
+Proof. induction d as [|d IH]; [exact DV_0|exact (DV_S d IH)]. Qed.
+
+(* a constructor of the value part on a sane token list: it returns, or the depth budget is exhausted *)
+Lemma value_parse_mod_depth g gr d toks :
+  nth_error env_real g = Some gr -> tallb cls2 (g_tree gr) = true -> sane_toks toks ->
+  pparse_env d env_real g toks = DepthOut \/ exists r, pparse_env d env_real g toks = Ret r.
+Proof.
+  intros Hg Hc Hs. unfold pparse_env. destruct d as [|d]; [left; reflexivity|].
+  assert (Hunf : pparse_sub (S d) env_real g false None toks = pparse d env_real true (g_opts gr) (g_tree gr) toks stash0).
+  { cbn [pparse_sub]. rewrite Hg. reflexivity. }
+  rewrite Hunf. destruct (env_real_wf_np g gr Hg) as [Hw Hnp].
+  pose proof (pparse_total_lemma d env_real true (g_opts gr) (g_tree gr) toks stash0 (or_introl eq_refl)) as H1.
+  pose proof (pparse_no_spin d env_real true (g_opts gr) (g_tree gr) toks stash0 env_real_wf Hw) as H2.
+  assert (H4 : pparse d env_real true (g_opts gr) (g_tree gr) toks stash0 <> Crash).
+  { unfold pparse. apply parse_tree_no_crash with (T := sane);
+      [apply pparse_sub_ok|exact Hw|exact Hnp| |left; reflexivity|exact Hs].
+    apply (tallb_tall cls2); [|exact Hc]. exact (cls2_safe d (DV_all d)). }
+  destruct (pparse d env_real true (g_opts gr) (g_tree gr) toks stash0) as [r| | | |]; try congruence; eauto.
+Qed.
+
+Lemma value_build_mod_depth g gr d toks :
+  nth_error env_real g = Some gr -> tallb cls2 (g_tree gr) = true -> post_total (g_post gr) = true -> sane_toks toks ->
+  pparse_env d env_real g toks = DepthOut \/
+  exists r, pparse_env d env_real g toks = Ret r /\ post (g_post gr) r <> PCrash.
+Proof.
+  intros Hg Hc Hpt Hs. destruct (value_parse_mod_depth g gr d toks Hg Hc Hs) as [H|[r H]]; [left; exact H|right].
+  exists r. split; [exact H|apply post_total_ok, Hpt].
+Qed.
+
+(* V1 *)
+Theorem property_value_total_mod_depth : forall d toks, sane_toks toks ->
+  pparse_env d env_real gid_PropertyValue toks = DepthOut \/
+  exists r, pparse_env d env_real gid_PropertyValue toks = Ret r /\ post PostPV r <> PCrash.
+Proof.
+  intros d toks Hs. destruct cls2_trees as [C3 _]. exact (value_build_mod_depth 3 _ d toks env3 C3 eq_refl Hs).
+Qed.
+(* the same in the shape  exists r, (Ret r /\ ...) \/ DepthOut *)
+Corollary property_value_total_mod_depth' : forall d toks, sane_toks toks ->
+  exists r, (pparse_env d env_real gid_PropertyValue toks = Ret r /\ post PostPV r <> PCrash) \/
+            pparse_env d env_real gid_PropertyValue toks = DepthOut.
+Proof.
+  intros d toks Hs. destruct (property_value_total_mod_depth d toks Hs) as [H|[r H]].
+  - exists (mkRes false [] [] false None SOff false [] stash0). right. exact H.
+  - exists r. left. exact H.
+Qed.
+
+(* V2: the constructors with a total post, used on their own *)
+Theorem value_ctor_total_mod_depth : forall g, 8 <= g <= 11 -> forall d toks, sane_toks toks ->
+  exists pc, postof_env env_real g = Some pc /\
+  (pparse_env d env_real g toks = DepthOut \/ exists r, pparse_env d env_real g toks = Ret r /\ post pc r <> PCrash).
+Proof.
+  intros g Hg d toks Hs. destruct cls2_trees as [_ [_ [_ [_ [_ [C8 [C9 [C10 [C11 _]]]]]]]]].
+  assert (Hc : g = 8 \/ g = 9 \/ g = 10 \/ g = 11) by lia. destruct Hc as [->|[->|[->| ->]]].
+  - exists PostOk. split; [unfold postof_env; rewrite env8; reflexivity|exact (value_build_mod_depth 8 _ d toks env8 C8 eq_refl Hs)].
+  - exists PostOk. split; [unfold postof_env; rewrite env9; reflexivity|exact (value_build_mod_depth 9 _ d toks env9 C9 eq_refl Hs)].
+  - exists PostOk. split; [unfold postof_env; rewrite env10; reflexivity|exact (value_build_mod_depth 10 _ d toks env10 C10 eq_refl Hs)].
+  - exists PostVar. split; [unfold postof_env; rewrite env11; reflexivity|exact (value_build_mod_depth 11 _ d toks env11 C11 eq_refl Hs)].
+Qed.
+(* Value / ColorValue / DimensionValue / URIValue on their own: the PARSE never crashes ... *)
+Theorem value_leaf_parse_mod_depth : forall g, 4 <= g <= 7 -> forall d toks, sane_toks toks ->
+  pparse_env d env_real g toks = DepthOut \/ exists r, pparse_env d env_real g toks = Ret r.
+Proof.
+  intros g Hg d toks Hs. destruct cls2_trees as [_ [C4 [C5 [C6 [C7 _]]]]].
+  assert (Hc : g = 4 \/ g = 5 \/ g = 6 \/ g = 7) by lia. destruct Hc as [->|[->|[->| ->]]].
+  - exact (value_parse_mod_depth 4 _ d toks env4 C4 Hs).
+  - exact (value_parse_mod_depth 5 _ d toks env5 C5 Hs).
+  - exact (value_parse_mod_depth 6 _ d toks env6 C6 Hs).
+  - exact (value_parse_mod_depth 7 _ d toks env7 C7 Hs).
+Qed.
+(* ... but their constructors read seq[0] and are NOT total on sane token lists: an EOF token alone sets stopall, the
+   closing check (and its "empty" test) is skipped, ok = True with an empty seq; a leading comment is seq[0] *)
+Definition eof_tok : tok := mkTok (s "EOF") [] [] 1 1.
+Example value_ctor_refuted :
+  sane_toks [eof_tok] /\ sane_toks [tk "COMMENT" "/**/"; tk "NUMBER" "1"] /\
+  build 3 env_real gid_Value [eof_tok] = Some PCrash /\
+  build 3 env_real gid_URIValue [eof_tok] = Some PCrash /\
+  build 3 env_real gid_DimensionValue [tk "COMMENT" "/**/"; tk "NUMBER" "1"] = Some PCrash /\
+  build 3 env_real gid_ColorValue [tk "COMMENT" "/**/"; tk "IDENT" "red"] = Some PCrash.
+Proof.
+  split; [repeat constructor; cbn; discriminate|]. split; [repeat constructor; cbn; discriminate|].
+  vm_compute. repeat split.
+Qed.
+Example property_value_ex :
+  exists r, pparse_env 4 env_real gid_PropertyValue [tk "IDENT" "red"; tk "S" " "; tk "FUNCTION" "f("; tk "NUMBER" "1"; tk "CHAR" ")"] = Ret r
+            /\ r_wf r = true.
+Proof. vm_compute. eauto. Qed.
+(* DepthOut is genuine: one FUNCTION token per level *)
+Example property_value_depthout :
+  pparse_env 3 env_real gid_PropertyValue [tk "FUNCTION" "f("; tk "FUNCTION" "g("; tk "FUNCTION" "h("; tk "CHAR" ")"] = DepthOut.
+Proof. vm_compute. reflexivity. Qed.
+
+Print Assumptions property_value_total_mod_depth.
+Print Assumptions value_ctor_total_mod_depth.
+Print Assumptions value_leaf_parse_mod_depth.
